@@ -17,11 +17,9 @@ pub(crate) struct Felt(u32);
 
 impl Felt {
     pub const fn new(value: i16) -> Self {
-        let gtz_bool = value >= 0;
-        let gtz_int = gtz_bool as i16;
-        let gtz_sign = gtz_int - ((!gtz_bool) as i16);
-        let reduced = gtz_sign * ((gtz_sign * value) % (Q as i16));
-        let canonical_representative = (reduced + (Q as i16) * (1 - gtz_int)) as u32;
+        let reduced = (value as i32) % (Q as i32);
+        let ltz_int = (reduced < 0) as i32;
+        let canonical_representative = (reduced + (Q as i32) * ltz_int) as u32;
         Felt(canonical_representative)
     }
 
